@@ -9,6 +9,7 @@ EventTags(ev) ==
          [] ev.e = "decode_payload" -> VDecodePayload(ev)
          [] ev.e = "decode_seq"     -> VDecodeSeq(ev)
          [] ev.e = "decode_opts"    -> VDecodeOpts(ev)
+         [] ev.e = "decode_bits"    -> VDecodeBits(ev)
          [] ev.e = "decode_suffix"  -> VDecodeSuffix(ev)
          [] ev.e = "avps_concat"    -> VAvpsConcat(ev)
          [] ev.e = "ctl_records"    -> VCtlRecords(ev)
